@@ -6,7 +6,7 @@ Require Extraction.
 Require Import ExtrOcamlBasic.
 From Verif Require Import Base.Str Base.Lines Base.Outcome.
 From Verif Require Import Model.RuleId Model.Root Model.Renumber Model.Copyright Model.Patterns Model.ParseLine Model.Format Model.Update.
-From Verif Require Import Model.Passes Model.CmdLine Model.Parser Model.Assembler Model.Generate Model.Cli Model.CliInst Model.SelfUpdate Model.DefsTok Regex.Re Regex.Equiv.
+From Verif Require Import Model.Passes Model.CmdLine Model.Parser Model.Assembler Model.Generate Model.PlainReading Model.PlainTree Model.Cli Model.CliInst Model.SelfUpdate Model.DefsTok Regex.Re Regex.Equiv.
 From Verif Require Import Gen.Consts.
 Extraction Language OCaml.
 Extraction "model.ml"
@@ -27,6 +27,7 @@ Extraction "model.ml"
   Parser.expand_definitions Parser.replace_suffixes Parser.string_from_lines Parser.lookup_file Parser.parse
   Assembler.assemble Assembler.pre_simplify
   Generate.generate Generate.parse_only Generate.to_parsed
+  PlainTree.plain_tree
   CliInst.cli_update_all CliInst.cli_update_one CliInst.cli_compare_all CliInst.cli_format_all CliInst.cli_format_one CliInst.cli_format_check_all
   CliInst.cli_renumber_all CliInst.cli_renumber_check_all CliInst.cli_copyright_all Cli.compare_all_status Cli.format_target
   DefsTok.tok_expand DefsTok.tokenize DefsTok.tokdefs DefsTok.detok
